@@ -112,6 +112,11 @@ def loose_digest(root, mask_images=False):
 
     def walk(e):
         if not isinstance(e.tag, str):
+            # comments and processing instructions are not layout: they must survive
+            if isinstance(e, etree._ProcessingInstruction):
+                emit("PI", e.target, e.text)
+            elif isinstance(e, etree._Comment):
+                emit("C", e.text)
             return
         if mask_images and e.tag == DR + "image":
             emit("IMG"); return
@@ -135,11 +140,34 @@ def loose_digest(root, mask_images=False):
 _GEN = re.compile(rb"(<(?:[\w.-]+:)?generator(?:\s[^>]*)?>)[^<]*(</)")
 
 
-def strict_digest(root):
+def doc_level(root):
+    """comments and processing instructions that stand outside the root element (the DOCTYPE is not compared: canonical XML has
+    none, and lxml cannot write one for a prefixed root name)"""
+    before = [x for x in root.itersiblings(preceding=True)][::-1]
+    after = [x for x in root.itersiblings()]
+    f = lambda x: ("PI", x.target, x.text) if isinstance(x, etree._ProcessingInstruction) else ("C", x.text)
+    return [f(x) for x in before], [f(x) for x in after]
+
+
+def dress_xml(b, k=0, doctype=False):
+    """the same document with items standing OUTSIDE the root element: a comment and a processing instruction before it, a comment
+    after it, optionally a DOCTYPE (as OpenOffice.org 1.x wrote)"""
+    root = etree.fromstring(b)
+    out = etree.tostring(root, xml_declaration=True, encoding="UTF-8")
+    head, sep, rest = out.partition(b"?>")
+    q = etree.QName(root)
+    pref = root.prefix + ":" if root.prefix else ""
+    dt = b'\n<!DOCTYPE %s%s PUBLIC "-//OpenOffice.org//DTD OfficeDocument 1.0//EN" "office.dtd">' % (pref.encode(), q.localname.encode()) if doctype else b""
+    return head + sep + dt + b"\n<!--before the root %d--><?verif-pi data=\"%d\"?>" % (k, k) + rest + b"<!--after the root-->"
+
+
+def strict_digest(root, mask=True):
+    """C14N (with comments) of the whole document: the root element and the comments / PIs around it, plus the DOCTYPE;
+    the generator stamp is masked unless mask=False"""
     c = etree.tostring(root, method="c14n")
-    if root.tag == OF + "document-meta":
+    if mask and root.tag == OF + "document-meta":
         c = _GEN.sub(rb"\1\2", c)
-    return hashlib.md5(c).hexdigest()
+    return hashlib.md5(c + repr(doc_level(root)).encode("utf8", "surrogatepass")).hexdigest()
 
 
 def paragraphs_text(root):
@@ -402,6 +430,7 @@ class Driver:
     def reset(self):
         self.it = Intern(self.rdf0); self.fs = FsReg(self.it); self.doc = None; self.twin = None; self.twin_term = self.EMPTY_DOC
         self.nfile = 0; self.saved = []     # (target object, kind)
+        self.held = None; self.twin_held = None
 
     def fresh(self, suffix=""):
         self.nfile += 1
@@ -436,6 +465,77 @@ class Driver:
                 for n, b in r[1]:
                     if n == name: return b
         return None
+
+    def doc_levels(self):
+        """name -> comments / processing instructions standing outside the root element, for every XML part held in memory"""
+        out = {}
+        parts = self.doc.container._Container__parts
+        for n in set(parts) | set(self.doc._Document__xmlparts):
+            if not is_xml_name(n):
+                continue
+            xp = self.doc._Document__xmlparts.get(n)
+            try:
+                if xp is not None and xp._XmlPart__tree is not None:
+                    out[n] = doc_level(xp._XmlPart__tree.getroot())
+                elif parts.get(n) is not None:
+                    out[n] = doc_level(etree.fromstring(parts[n]))
+            except etree.XMLSyntaxError:
+                pass
+        return out
+
+    def raw_view(self, doc):
+        """name -> digest of what the document holds, nothing masked (parsed tree first, then memory, then the file)"""
+        c = doc.container
+        out = {}
+        if c.path is not None:
+            r = read_target(str(c.path))
+            if r and r[0] == "zip":
+                for n, _, b in r[1]: out[n] = b
+            if r and r[0] == "dir":
+                for n, b in r[1]: out[n] = b
+        for n, b in c._Container__parts.items():
+            if b is None:
+                out.pop(n, None)
+            else:
+                out[n] = b
+        dig = {}
+        for n, b in out.items():
+            if n.endswith("/"):
+                continue
+            d = None
+            if is_xml_name(n):
+                try:
+                    d = "x" + strict_digest(etree.fromstring(b), mask=False)
+                except Exception:
+                    d = None
+            dig[n] = d or hashlib.md5(bytes(b)).hexdigest()
+        for n, part in doc._Document__xmlparts.items():
+            tree = part._XmlPart__tree
+            if tree is not None and n in dig:
+                dig[n] = "x" + strict_digest(tree.getroot(), mask=False)
+        return dig
+
+    def content_images(self):
+        """(href, bytes) of every draw:image of the content part that names a packaged part, in document order"""
+        xp = self.doc._Document__xmlparts.get("content.xml")
+        if xp is not None and xp._XmlPart__tree is not None:
+            root = xp._XmlPart__tree.getroot()
+        else:
+            b = self.part_bytes_now("content.xml")
+            if b is None:
+                return []
+            root = etree.fromstring(b)
+        XL = "{%s}href" % NS["xlink"]
+        out = []
+        for e in root.iter(DR + "image"):
+            href = e.get(XL)
+            if not href or "://" in href:
+                continue
+            name = posixpath.normpath(href)
+            data = self.part_bytes_now(name)
+            if data:
+                out.append((href, bytes(data)))
+        return out
 
     def live_names(self):
         c = self.doc.container
@@ -475,6 +575,7 @@ class Driver:
         if k == "swap":
             if self.twin is not None:
                 self.doc, self.twin = self.twin, self.doc
+                self.held, self.twin_held = self.twin_held, self.held      # an element handle belongs to one of the twins
             return None
         if k == "buildopen":
             # a package assembled with zipfile from a template: extra members in special directories, listed in its manifest
@@ -491,6 +592,8 @@ class Driver:
                         if not en.endswith("/"):
                             e = etree.SubElement(root, MN + "file-entry"); e.set(MN + "full-path", en); e.set(MN + "media-type", "application/octet-stream")
                     b = etree.tostring(root, xml_declaration=True, encoding="UTF-8")
+                if n in (o.get("dress") or ()):
+                    b = dress_xml(b, len(n), doctype=bool(o.get("doctype")))
                 out.append((n, st, b))
             with zipfile.ZipFile(dst, "w", zipfile.ZIP_DEFLATED) as zf:
                 for n, st, b in out[:-1] if out[-1][0] == "META-INF/manifest.xml" else out:
@@ -509,6 +612,9 @@ class Driver:
         pre_fs, pre = self.state(ids)
         twin_pre = self.twin_term
         out, err, opt_term = "Done", None, None
+        extra_v = []
+        if k in ("open", "new"):
+            self.held = None
         try:
             if k == "open":
                 tgt = self.fs.targets[sid]
@@ -604,6 +710,9 @@ class Driver:
                 if reuse is not None and pk == "folder" and self.doc.container.path is not None \
                         and str(self.doc.container.path) == str(self.saved[reuse][0]):
                     reuse = None      # in-place folder save: outcome depends on the clock (one-second time stamps)
+                if reuse is not None and self.twin is not None and self.twin.container.path is not None \
+                        and str(self.twin.container.path) == str(self.saved[reuse][0]):
+                    reuse = None      # saving one twin over the file the other one loads from: excluded by the hypothesis of C10's independence theorems
                 if reuse is not None and pk == "xml" and isinstance(self.saved[reuse][0], io.BytesIO):
                     reuse = None      # flat XML is written at the buffer's current position: a reused BytesIO holds two documents (notes/C03.md)
                 if reuse is not None:
@@ -625,19 +734,59 @@ class Driver:
                 opt_term = "OSave (%s) %s %s" % (tt, {"zip": "PZip", "folder": "PFolder", "xml": "PXml"}[pk], "true" if eff_pretty else "false")
                 ids.append(sid)
                 kw = {} if pretty is None else dict(pretty=pretty)
+                want_images = self.content_images() if pk == "xml" else None
+                want_levels = self.doc_levels() if pk != "xml" else {}
                 limited(self.doc.save, arg, packaging=pk, **kw)
+                if any(b or a for b, a in want_levels.values()):
+                    # items outside the root element of a part are content: they are in the saved part, plain or pretty
+                    tg = self.fs.targets[sid]
+                    r = read_target(tg if isinstance(tg, io.BytesIO) else str(tg))
+                    got = {}
+                    if r and r[0] in ("zip", "dir"):
+                        for t in r[1]:
+                            if t[0] in want_levels:
+                                try: got[t[0]] = doc_level(etree.fromstring(t[-1]))
+                                except etree.XMLSyntaxError: got[t[0]] = None
+                        lost = sorted(n for n in want_levels if n in got and got[n] != want_levels[n] and n != "META-INF/manifest.xml")
+                        if lost:
+                            extra_v.append(("save-%s%s/document-level-items-lost" % (pk, "-pretty" if eff_pretty else ""),
+                                            "save: comments / processing instructions outside the root element of %s are not in the saved part" % lost[:4]))
+                if pk == "xml":
+                    # content inclusion: every packaged image the body references is embedded as office:binary-data
+                    tgt_obj = self.fs.targets[sid]
+                    data = tgt_obj.getvalue() if isinstance(tgt_obj, io.BytesIO) else open(tgt_obj, "rb").read()
+                    import base64
+                    got = []
+                    try:
+                        for e in etree.fromstring(data).iter(DR + "image"):
+                            bd = e.find(OF + "binary-data")
+                            got.append(base64.b64decode("".join((bd.text or "").split())) if bd is not None else None)
+                    except etree.XMLSyntaxError:
+                        got = None
+                    exp = [b for _, b in want_images]
+                    if got is None or [g for g in got if g is not None] != exp:
+                        missing = len(exp) - (0 if got is None else sum(1 for g in got if g is not None))
+                        extra_v.append(("save-xml/image-not-embedded", "flat XML: %d of %d packaged images referenced by the body are not embedded (first href %s)"
+                                        % (missing, len(exp), want_images[0][0] if want_images else None)))
                 # a later save of this history may reuse the target: remember a real argument (an in-place save passes None)
                 self.saved.append((self.fs.targets[sid], pk, arg if arg is not None else self.fs.targets[sid]))
                 o["saved_index"] = len(self.saved) - 1
-            elif k == "clone":
-                opt_term = "OClone"
-                self.doc = limited(lambda: self.doc.clone)
-            elif k == "clone2":
-                # keep the original as the twin, continue with the clone
+            elif k in ("clone", "clone2"):
+                # for a clone nothing is masked: the original byte for byte (C14N) before / after, the clone against it
                 opt_term = "OClone"
                 orig = self.doc
-                self.doc = limited(lambda: orig.clone)
-                self.twin = orig
+                before = self.raw_view(orig)
+                new = limited(lambda: orig.clone)
+                after = self.raw_view(orig); born = self.raw_view(new)
+                ch = sorted(n for n in set(before) | set(after) if before.get(n) != after.get(n))
+                df = sorted(n for n in set(before) | set(born) if before.get(n) != born.get(n))
+                if ch:
+                    extra_v.append(("clone/original-changed/%s" % ("meta.xml" if "meta.xml" in ch else ch[0]), "clone-modifies-original (nothing masked): %s" % ch[:4]))
+                if df:
+                    extra_v.append(("clone/not-equal-at-birth-unmasked/%s" % ("meta.xml" if "meta.xml" in df else df[0]), "equal-at-birth (nothing masked): %s" % df[:4]))
+                if k == "clone2":
+                    self.twin = orig; self.twin_held = self.held
+                self.doc = new; self.held = None
             else:
                 raise ValueError("unknown op %r" % (k,))
         except Timeout:
@@ -648,7 +797,7 @@ class Driver:
                 raise
         post_fs, post = self.state(ids)
         return dict(pre_fs=pre_fs, pre=pre, op=opt_term, post_fs=post_fs, post=post, out=out, err=err, kind=k,
-                    twin_pre=twin_pre, twin_post=self.twin_term)
+                    twin_pre=twin_pre, twin_post=self.twin_term, extra_violations=extra_v)
 
     # -- helpers for ops
     def make_source(self, spec):
@@ -705,7 +854,11 @@ class Driver:
             except Exception:
                 root = etree.fromstring(b"<office:document-content xmlns:office='%s'/>" % NS["office"].encode())
             root.set("{%s}k" % EDIT_NS, str(variant))
-            return etree.tostring(root, xml_declaration=True, encoding="UTF-8")
+            out = etree.tostring(root, xml_declaration=True, encoding="UTF-8")
+            if variant >= 4:
+                # document-level items: comment and processing instruction before the root, comment after it (variant 6: DOCTYPE too)
+                out = dress_xml(out, variant, doctype=variant >= 6)
+            return out
         return b"DATA-%d-" % variant + name.encode()
 
     def do_edit(self, n, how, arg):
@@ -715,7 +868,15 @@ class Driver:
             body = d.body
             ret = body
             if how == "par":
-                body.append(Paragraph(arg or "added  text\twith   spaces"))
+                self.held = Paragraph(arg or "added  text\twith   spaces")
+                body.append(self.held)
+            elif how == "heldtext":
+                # edit through an element handle obtained earlier (not fetched again)
+                if self.held is None:
+                    self.held = Paragraph("held")
+                    body.append(self.held)
+                self.held.append(arg or " more text through the old handle")
+                ret = self.held
             elif how == "frame":
                 p = Paragraph("")
                 p.append(Frame.image_frame(arg or "Pictures/none.png", size=("1cm", "1cm"), anchor_type="as-char"))
@@ -869,7 +1030,7 @@ def resolve(drv, o, rng_seed):
     if k == "setxml":
         if not xmls:
             return []
-        return [dict(op="set", name=rng.choice(xmls), variant=rng.randrange(4))]
+        return [dict(op="set", name=rng.choice(xmls), variant=rng.randrange(6))]
     if k == "setnew":
         return [dict(op="set", name=rng.choice(SPECIAL_NAMES), variant=rng.randrange(4))]
     if k == "importnew":
@@ -897,6 +1058,8 @@ def resolve(drv, o, rng_seed):
         arg = None
         if how == "spaces":
             how, arg = "par", rng.choice(["a  b", " lead", "trail  ", "x\ty\nz", "two  spaces  twice"])
+        if n == "content.xml" and rng.random() < 0.25:
+            how, arg = "heldtext", " held %d" % rng.randrange(9)
         if how == "raw":
             arg = rng.choice(RAW_PARS)
         if how == "attr":
@@ -963,6 +1126,57 @@ def resolve(drv, o, rng_seed):
     raise ValueError(k)
 
 
+def samples_with_body_images(S):
+    """samples whose content.xml has a draw:image naming a member of the package"""
+    out = []
+    XL = "{%s}href" % NS["xlink"]
+    for s_ in S:
+        try:
+            with zipfile.ZipFile(s_) as zf:
+                names = set(zf.namelist())
+                root = etree.fromstring(zf.read("content.xml"))
+        except Exception:
+            continue
+        if any(posixpath.normpath(e.get(XL) or "//") in names for e in root.iter(DR + "image")):
+            out.append(s_)
+    return out
+
+
+def flat_image_histories(S, text_template, tier):
+    """flat-XML export of documents whose pictures are NOT in memory: opened lazily from a zip path or from a .folder (directly, after
+    partial reads, after a clone); every packaged image the body references must be embedded"""
+    hs = []
+    img = sorted(samples_with_body_images(S), key=os.path.getsize)
+    img = img[: (4 if tier == "quick" else len(img))]
+    FX_ = lambda pty: dict(op="save", packaging="xml", target="buf", pretty=pty)
+    for s_ in img:
+        hs.append([dict(op="open", src=s_, buf=False), FX_(None)])
+        hs.append([dict(op="copyopen", src=s_), dict(op="touch", name="content.xml"), FX_(False), dict(op="save", packaging="xml", target="path", pretty=True)])
+        hs.append([dict(op="open", src=s_, buf=True), dict(op="save", packaging="folder", target="path", pretty=False), dict(op="reopen", r=1), FX_(None),
+                   dict(op="touch", name="styles.xml"), FX_(False)])
+        hs.append([dict(op="open", src=s_, buf=False), dict(op="save", packaging="zip", target="path", pretty=False), dict(op="reopen", r=1),
+                   dict(op="edit", name="content.xml", how="par", arg="x"), FX_(True), dict(op="clone"), FX_(None)])
+    for pk in ("zip", "folder"):
+        hs.append([dict(op="new", src=text_template, template="text"), dict(op="frame", r=7), dict(op="frame", r=8),
+                   dict(op="save", packaging=pk, target="path", pretty=False), dict(op="reopen", r=1), FX_(None), FX_(False)])
+    return hs
+
+
+def resave_histories(starts, rng):
+    """save sequences with edits in between made through handles obtained BEFORE the earlier save (the cached doc.body, a held
+    element, a part object fetched once): every later save - pretty or plain, zip or folder - writes the memory of that moment"""
+    hs = []
+    E = lambda how, arg: dict(op="edit", name="content.xml", how=how, arg=arg)
+    for st in starts:
+        for pk, tg in (("zip", "buf"), ("folder", "path"), ("zip", "path")):
+            for first, second in ((True, True), (True, False), (False, True), (None, None)):
+                S1 = dict(op="save", packaging=pk, target=tg, pretty=first); S2 = dict(op="save", packaging=pk, target=tg, pretty=second)
+                hs.append([dict(st), E("par", "first"), dict(S1), E("par", "second, through the cached body"), E("heldtext", " and more through the held paragraph"),
+                           dict(S2), dict(op="save", packaging="zip", target="buf", pretty=False), E("heldtext", " third"),
+                           dict(op="edit", name="styles.xml", how="attr", arg="r%d" % rng.randrange(99)), dict(S2), dict(op="reopen", r=3), dict(op="touch", name="content.xml")])
+    return hs
+
+
 # names in every directory / spelling the code treats specially, and awkward ones
 SPECIAL_NAMES = ["extra/new file.bin", "Pictures/with space.png", "Thumbnails/thumbnail.png", "META-INF/documentsignatures.xml",
                  "META-INF/manifest.xml.bak", "META-INF/sub/key.bin", "mimetype2", "mimetype.bak", "Thumbnails/other view.png",
@@ -981,6 +1195,57 @@ RAW_PARS = [
     '<text:p xmlns:text="%(t)s">note<text:note text:note-class="footnote"><text:note-citation>1</text:note-citation><text:note-body><text:p>body<text:s/>x</text:p></text:note-body></text:note>after</text:p>',
     '<text:p xmlns:text="%(t)s">l<text:a xmlns:xlink="http://www.w3.org/1999/xlink" xlink:href="http://x/">ink<text:s/></text:a><text:bookmark text:name="b"/>r</text:p>',
 ]
+def samples_with_body_images(S):
+    """samples whose content.xml has a draw:image naming a member of the package"""
+    out = []
+    XL = "{%s}href" % NS["xlink"]
+    for s_ in S:
+        try:
+            with zipfile.ZipFile(s_) as zf:
+                names = set(zf.namelist())
+                root = etree.fromstring(zf.read("content.xml"))
+        except Exception:
+            continue
+        if any(posixpath.normpath(e.get(XL) or "//") in names for e in root.iter(DR + "image")):
+            out.append(s_)
+    return out
+
+
+def flat_image_histories(S, text_template, tier):
+    """flat-XML export of documents whose pictures are NOT in memory: opened lazily from a zip path or from a .folder (directly, after
+    partial reads, after a clone); every packaged image the body references must be embedded"""
+    hs = []
+    img = sorted(samples_with_body_images(S), key=os.path.getsize)
+    img = img[: (4 if tier == "quick" else len(img))]
+    FX_ = lambda pty: dict(op="save", packaging="xml", target="buf", pretty=pty)
+    for s_ in img:
+        hs.append([dict(op="open", src=s_, buf=False), FX_(None)])
+        hs.append([dict(op="copyopen", src=s_), dict(op="touch", name="content.xml"), FX_(False), dict(op="save", packaging="xml", target="path", pretty=True)])
+        hs.append([dict(op="open", src=s_, buf=True), dict(op="save", packaging="folder", target="path", pretty=False), dict(op="reopen", r=1), FX_(None),
+                   dict(op="touch", name="styles.xml"), FX_(False)])
+        hs.append([dict(op="open", src=s_, buf=False), dict(op="save", packaging="zip", target="path", pretty=False), dict(op="reopen", r=1),
+                   dict(op="edit", name="content.xml", how="par", arg="x"), FX_(True), dict(op="clone"), FX_(None)])
+    for pk in ("zip", "folder"):
+        hs.append([dict(op="new", src=text_template, template="text"), dict(op="frame", r=7), dict(op="frame", r=8),
+                   dict(op="save", packaging=pk, target="path", pretty=False), dict(op="reopen", r=1), FX_(None), FX_(False)])
+    return hs
+
+
+def resave_histories(starts, rng):
+    """save sequences with edits in between made through handles obtained BEFORE the earlier save (the cached doc.body, a held
+    element, a part object fetched once): every later save - pretty or plain, zip or folder - writes the memory of that moment"""
+    hs = []
+    E = lambda how, arg: dict(op="edit", name="content.xml", how=how, arg=arg)
+    for st in starts:
+        for pk, tg in (("zip", "buf"), ("folder", "path"), ("zip", "path")):
+            for first, second in ((True, True), (True, False), (False, True), (None, None)):
+                S1 = dict(op="save", packaging=pk, target=tg, pretty=first); S2 = dict(op="save", packaging=pk, target=tg, pretty=second)
+                hs.append([dict(st), E("par", "first"), dict(S1), E("par", "second, through the cached body"), E("heldtext", " and more through the held paragraph"),
+                           dict(S2), dict(op="save", packaging="zip", target="buf", pretty=False), E("heldtext", " third"),
+                           dict(op="edit", name="styles.xml", how="attr", arg="r%d" % rng.randrange(99)), dict(S2), dict(op="reopen", r=3), dict(op="touch", name="content.xml")])
+    return hs
+
+
 # names in every directory / spelling the code treats specially, and awkward ones
 SPECIAL_NAMES = ["extra/new file.bin", "Pictures/with space.png", "Thumbnails/thumbnail.png", "META-INF/documentsignatures.xml",
                  "META-INF/manifest.xml.bak", "META-INF/sub/key.bin", "mimetype2", "mimetype.bak", "Thumbnails/other view.png",
@@ -1049,7 +1314,7 @@ def _work_one(args):
             recs = run_concrete(_DRV, hist)
         else:
             recs = run_history(_DRV, hist, seed + hid)
-        keep = ("pre_fs", "pre", "op", "post_fs", "post", "out", "err", "kind", "concrete", "extra", "twin_pre", "twin_post", "env_before")
+        keep = ("pre_fs", "pre", "op", "post_fs", "post", "out", "err", "kind", "concrete", "extra", "twin_pre", "twin_post", "env_before", "extra_violations")
         return hid, [dict((k, r.get(k)) for k in keep) for r in recs], None
     except Timeout:
         return hid, None, "timeout"
@@ -1129,7 +1394,7 @@ def concrete_prefix(recs, upto):
 
 def run_check(prop, checker, layers, make_histories, key_of, tier, seed, replay, trusted_base, rule, assumptions,
               nontrivial_kinds, extra_targets=("PkgChk",), header_extra="Require Import PkgChk.\n", fidelity_code=9, shard=60,
-              post_hook=None, case_fn=None, header=None, proof_file=None, finish=True):
+              post_hook=None, case_fn=None, header=None, proof_file=None, finish=True, extra_prefixes=()):
     """the common decision procedure of the package-level checks (BUILDERS.md contract)"""
     import random
     t0 = time.time(); rng = random.Random(seed)
@@ -1178,6 +1443,18 @@ def run_check(prop, checker, layers, make_histories, key_of, tier, seed, replay,
             known_seen.append("%s (%s) replay=%s" % (key, known[key]["description"][:90], rp))
         else:
             violations.append((rp, False))
+    # direct observations made by the driver (nothing masked / content inclusion), for the prefixes this property owns
+    for hid, recs in done:
+        for i, r in enumerate(recs):
+            for j, (key, layer) in enumerate(r.get("extra_violations") or []):
+                if not key.startswith(tuple(extra_prefixes)) or key in seen_keys:
+                    continue
+                seen_keys.add(key)
+                rp = common.write_replay(prop, seed, "%d-%d-e%d" % (hid, i, j), dict(layer=layer, key=key, ops=concrete_prefix(recs, i), step=i))
+                if key in known:
+                    known_seen.append("%s (%s) replay=%s" % (key, known[key]["description"][:90], rp))
+                else:
+                    violations.append((rp, False))
     extra_cov = {}
     if post_hook:
         v2, k2, extra_cov, errs2 = post_hook(done, recmap, seed, known, proofs)
